@@ -35,7 +35,7 @@ func init() {
 		Title: "Set stays strictly ordered, duplicate-free and equal to the mathematical set",
 		Rule: "PRNG-generated histories over Make/MakeWithCollator/MakeFromArray/MakeFromSequence, AddValue(s), RemoveValue(s), RemoveAll, Contains*, GetIndex, GetValue(s) against a model kept sorted and de-duplicated by the collator the harness supplied " +
 			"(default order = natural order of the element type; reversed and coarse collators are implemented by the harness); after every call: strict ascent, membership, GetIndex/ContainsValue for every value of the (small) universe, GetValue at every index, iteration. " +
-			"Plus an exhaustive engine: every insertion order of 0..6 distinct values, absent values probed before/between/after the members after every step, removal in three orders. " +
+			"Plus an exhaustive engine: every insertion order of 0..6 (thorough: 0..7) distinct values, absent values probed before/between/after the members after every step, removal in three orders. " +
 			"distinct_nontrivial = distinct hashes of (element type, collator, model state before, operation, argument class, outcome) after the first mutation.",
 		Assumptions: []string{
 			"only total-preorder collators are supplied",
@@ -134,7 +134,7 @@ func init() {
 		collator := collator
 		p.Engines = append(p.Engines, &core.Engine{
 			Name:       "set/orders/" + collator,
-			Count:      core.FixedCount(874, 874), // 0!+1!+...+6!
+			Count:      core.FixedCount(874, 5914), // 0!+1!+...+6! (thorough: ...+7!)
 			Run:        func(c *core.Ctx, idx int) { seq.RunC02Orders(c, idx, collator) },
 			Exhaustive: true,
 		})
